@@ -44,7 +44,7 @@ func dtPairsCheck(rc *RunCtx, prefixes ...string) {
 	for _, a := range rows {
 		for _, b := range rows {
 			vars := []wire.Var{{K: wire.Bytes("a"), V: wire.Value{T: "str", S: a.S}}, {K: wire.Bytes("b"), V: wire.Value{T: "str", S: b.S}}}
-			for _, op := range []string{"lt", "eq", "ge"} {
+			for _, op := range []string{"lt", "eq", "ge", "ne"} {
 				l := append(append([]wire.Node{}, va...), dtNode("datetime", -1))
 				r := append(append([]wire.Node{}, vb...), dtNode("datetime", -1))
 				for _, tz := range []struct {
@@ -182,7 +182,7 @@ func init() {
 					continue
 				}
 				vars := []wire.Var{{K: wire.Bytes("a"), V: strs[i]}, {K: wire.Bytes("b"), V: strs[j]}}
-				for _, op := range []string{"lt", "eq", "ge"} {
+				for _, op := range []string{"lt", "eq", "ge", "ne"} {
 					for _, m := range []string{"datetime", "timestamp_tz", "time_tz"} {
 						if m != "datetime" && op != "lt" {
 							continue
